@@ -62,6 +62,10 @@ def run():
     Ns = ck.pick([128], [128, 512])
     R = ck.pick(48, 96)
     cells = [dict(target=t, N=N, n_total=8 * N, mode="vec", **c) for t in tg for c in cf for N in Ns]
+    for N in Ns:
+        for kern in ("tpcn", "rwm"):
+            cells.append(dict(target="gauss2", N=N, n_total=8 * N, mode="vec", kernel=kern, resample="syst", clustering=False, volume_variation=1.0))
+            cells.append(dict(target="gauss4", N=N, n_total=8 * N, mode="vec", kernel=kern, resample="mult", clustering=False))
     Nmax = max(Ns)
     store = {}
 
